@@ -7,6 +7,15 @@ TECH = "deterministic simulation with fault injection: seeded search over scenar
 
 # id -> (category, text, design_ref, note)
 CLAIMED = {
+ "C01": ("exploration",
+   "Byte strings from six Mallory generators (uniform random, mutations and truncations of valid packets, grammar packets with arbitrary counts / RDLENGTH / pointer graphs, pointer-graph specials, every string over a small name-byte alphabet up to a fixed length after a header, oversized datagrams up to 9000 bytes) are delivered through the receive seam to a daemon with open browses, a hostname search and a registration, one or several per wake-up. Deciding oracle: the daemon thread neither panics nor hangs (watchdog on the step), the step's allocation stays proportional to the datagram (counting allocator per daemon thread), and the daemon still answers a follow-up browse afterwards; the guarded decode facade is compared with an independent strict RFC 1035 decoder: every accepted name is one the datagram could encode (<= 255 bytes), every record lies inside the datagram.",
+   "7.1", "Decoding is a pure function; what the simulation adds is that the bytes reach it through the real read path of a busy daemon, with time limits enforced by the step watchdog. The small-alphabet part is exhaustive up to the stated length; the rest is sampled."),
+ "C14": ("fault_enumeration",
+   "The three guarded yield points in the daemon loop (after a command is taken, after the clean-up at exit, after the shutdown reply) let the simulator run caller-thread API calls at exact positions relative to the Exit command: for N <= 3 other commands of every kind, every position of shutdown among them and every yield point is enumerated (quick: N <= 2), plus seeded longer mixes with several handle clones. Oracle over the history: goodbye for every announced service, SearchStopped last on every browse / hostname channel, Shutdown status, every later call fails with DaemonShutdown, every reply channel yields or disconnects (no caller can block for ever), clean-up exactly once, no panic.",
+   "7.14", "Caller threads are simulated at the yield points of the daemon thread (the daemon is the only real thread); interleavings inside flume's channel implementation are not explored."),
+ "C15": ("exploration",
+   "API family: every public function is called with strings from a hostile-argument grammar (empty, 63/64/255-byte labels, multi-byte UTF-8 at every boundary, dots / backslashes, missing or doubled suffixes, existing conflict suffixes up to u32::MAX) and extreme numbers (timeouts to u64::MAX, ports, TTL options), followed by enough virtual time for probing, announcing, renames (a conflicter peer contests names), follow-up queries and clock jumps; packet family: Mallory packets and targeted hostile records (labels ending in backslash, dots inside labels, root targets, over-long merged labels) are delivered to a daemon with active browses, resolvers and registrations. Oracle: no caller panic (catch_unwind at the API seam), daemon thread alive and not hung, and a fresh browse + answer afterwards is still served (follow-up rule).",
+   "7.15", "Sampling; arithmetic overflow is made observable by building the simulator with overflow checks on."),
  "C03": ("exploration",
    "Seeded search over announcement / update / goodbye / silence histories delivered with loss, duplication, delays up to 15 s, wake latency and spurious wake-ups; every ServiceResolved event is judged against a receive model built from the packets as delivered (TTL from last arrival, TTL 0 = 1 s, cache-flush one-second rule, per-interface address tags). The model over-approximates what may be live, so a flagged event uses a record no delivery can justify. Sampling over histories; TTLs 2 s..75 min reached because virtual hours cost milliseconds.",
    "7.3", "Trusts the independent codec and the receive model's reading of the statement; 'maybe accepted' packets (answers to someone else's browse) never raise an alarm."),
